@@ -305,6 +305,8 @@ type corpusShape struct {
 	maxLen   int
 	maxToks  int
 	bulks    int
+	inter    int // search between bulks: 0 none, 1 all tokens, 2 tokens of the next bulk
+	repeat   bool // documents may carry the same token 2-3 times
 }
 
 func genCorpus(r *rng.R, sh corpusShape) []doc {
@@ -332,6 +334,14 @@ func genCorpus(r *rng.R, sh corpusShape) []doc {
 			if !have[t] {
 				have[t] = true
 				d.Toks = append(d.Toks, t)
+			}
+		}
+		if sh.repeat && len(d.Toks) > 0 && r.Chance(1, 3) {
+			// the same token 2-3 times in one document (a repeated word): inserted at random positions
+			for k := r.Range(1, 2); k > 0; k-- {
+				t := d.Toks[r.Intn(len(d.Toks))]
+				p := r.Intn(len(d.Toks) + 1)
+				d.Toks = append(d.Toks[:p], append([]token{t}, d.Toks[p:]...)...)
 			}
 		}
 		if d.Toks == nil {
@@ -486,6 +496,7 @@ type request struct {
 	Reverse bool   `json:"asc_order"`
 	Limit   int    `json:"limit"`
 	WT      bool   `json:"with_total"`
+	Hist    uint64 `json:"hist_interval"`
 	E       *expr  `json:"expr"`
 }
 
@@ -521,6 +532,9 @@ func randRequest(r *rng.R, sh corpusShape, depthMax int) request {
 		}
 		q.From, q.To = a, b
 	}
+	if r.Chance(1, 4) {
+		q.Hist = rng.Pick(r, []uint64{1, 2, 3, 7, 1000, 1 << 40})
+	}
 	switch r.Intn(6) {
 	case 0:
 		q.Limit = 0
@@ -537,6 +551,7 @@ func randRequest(r *rng.R, sh corpusShape, depthMax int) request {
 type answer struct {
 	IDs   [][2]uint64 `json:"ids"`
 	Total uint64      `json:"total"`
+	Hist  [][2]uint64 `json:"histogram"`
 }
 
 type searchResult struct {
@@ -548,6 +563,7 @@ type searchResult struct {
 	viol       []casefile.Violation
 	counts     []string
 	borders    []borderCase
+	extra      []borderCase // answers of the searches between bulks (CSearch on the prefix corpus)
 }
 
 type borderCase struct {
@@ -579,13 +595,86 @@ func runCorpus(r *rng.R, tmp string, idx int, sh corpusShape, nreq, depthMax int
 	for i := range reqs {
 		reqs[i] = randRequest(r, sh, depthMax)
 	}
-	return execCorpus(tmp, idx, corpus, reqs, sh.bulks, mode)
+	nb := min(max(1, sh.bulks), max(1, len(corpus)))
+	cuts := make([]int, nb)
+	for b := range cuts {
+		cuts[b] = len(corpus) * (b + 1) / nb
+	}
+	return execCorpus(tmp, idx, corpus, reqs, cuts, sh.inter, mode)
 }
 
-func execCorpus(tmp string, idx int, corpus []doc, reqs []request, bulks int, mode string) (res searchResult) {
-	sh := corpusShape{bulks: bulks}
+// interRequest is the search issued between two bulks: it makes the active fraction merge the queued LIDs
+// of the tokens it touches into their sorted lists, so that the next bulk's queue meets a NON-EMPTY list.
+// inter 1: every token of the fraction (one wildcard per field); inter 2: the tokens of the next bulk.
+func interRequest(inter, b int, next []doc) *request {
+	var e *expr
+	switch inter {
+	case 1:
+		e = &expr{Kind: "or", A: &expr{Kind: "prefix", F: 0}, B: &expr{Kind: "or", A: &expr{Kind: "prefix", F: 1}, B: &expr{Kind: "prefix", F: 2}}}
+	case 2:
+		seen := map[token]bool{}
+		for _, d := range next {
+			for _, t := range d.Toks {
+				if !seen[t] && len(seen) < 8 {
+					seen[t] = true
+					l := &expr{Kind: "lit", F: t.F, V: t.V}
+					if e == nil {
+						e = l
+					} else {
+						e = &expr{Kind: "or", A: e, B: l}
+					}
+				}
+			}
+		}
+	}
+	if e == nil {
+		return nil
+	}
+	q := &request{Text: e.text(), E: e, From: 0, To: math.MaxUint64, Reverse: b%2 == 1, Limit: 3, WT: true}
+	if inter == 2 {
+		q.Hist = 1000
+	}
+	return q
+}
+
+type asked struct {
+	sq  string
+	ans answer
+}
+
+// ask sends one request to the fraction's DataProvider.Search and renders the observation
+func ask(f frac.Fraction, q request) (*asked, error, error) {
+	p, err := (fracbuild.Query{Text: q.Text, Mapping: mapping, From: q.From, To: q.To, Limit: q.Limit, Reverse: q.Reverse, WithTotal: q.WT, Hist: q.Hist}).Params()
+	if err != nil {
+		return nil, nil, fmt.Errorf("parse: %w", err)
+	}
+	ast, err := astCoq(p.AST)
+	if err != nil {
+		return nil, nil, fmt.Errorf("ast: %w", err)
+	}
+	qpr, err := searchGuarded(f, p)
+	if err != nil {
+		return nil, err, nil
+	}
+	a := answer{IDs: make([][2]uint64, len(qpr.IDs)), Total: qpr.Total, Hist: [][2]uint64{}}
+	for i, x := range qpr.IDs {
+		a.IDs[i] = [2]uint64{uint64(x.ID.MID), uint64(x.ID.RID)}
+	}
+	for k, v := range qpr.Histogram {
+		a.Hist = append(a.Hist, [2]uint64{uint64(k), v})
+	}
+	sort.Slice(a.Hist, func(i, j int) bool { return a.Hist[i][0] < a.Hist[j][0] })
+	sq := fmt.Sprintf("SQ %s\n       %s\n       %d %d %s %d %s %d %s %d %s", q.E.coq(), ast, q.From, q.To,
+		casefile.Bool(q.Reverse), q.Limit, casefile.Bool(q.WT), q.Hist, idsCoq(a.IDs), a.Total, idsCoq(a.Hist))
+	return &asked{sq: sq, ans: a}, nil, nil
+}
+
+func execCorpus(tmp string, idx int, corpus []doc, reqs []request, cuts []int, inter int, mode string) (res searchResult) {
+	if len(cuts) == 0 || cuts[len(cuts)-1] != len(corpus) {
+		cuts = append(append([]int{}, cuts...), len(corpus))
+	}
 	res.class = "search-" + mode
-	input := map[string]any{"mode": mode, "bulks": sh.bulks, "docs": corpus, "requests": reqs}
+	input := map[string]any{"mode": mode, "cuts": cuts, "inter": inter, "docs": corpus, "requests": reqs}
 	res.input = input
 	fail := func(fp, what string) searchResult {
 		res.viol = append(res.viol, casefile.Violation{Fingerprint: fp, What: what, Input: input})
@@ -604,13 +693,15 @@ func execCorpus(tmp string, idx int, corpus []doc, reqs []request, bulks int, mo
 		return fail("harness-error", "NewFM: "+err.Error())
 	}
 	// several bulks: LIDs of one token arrive in several unsorted queue batches
-	nb := min(max(1, sh.bulks), max(1, len(corpus)))
-	for b := 0; b < nb; b++ {
-		lo, hi := len(corpus)*b/nb, len(corpus)*(b+1)/nb
+	lo := 0
+	for b, hi := range cuts {
+		if hi < lo || hi > len(corpus) {
+			return fail("harness-error", "bad cuts")
+		}
 		var docs []fracbuild.Doc
 		for _, d := range corpus[lo:hi] {
 			fd := fracbuild.Doc{MID: d.MID, RID: d.RID, Body: []byte(`{"x":"y"}`)}
-			for _, t := range d.Toks {
+			for _, t := range d.Toks { // a token listed twice is sent twice, as the tokenizers do for a repeated word
 				fd.Tokens = append(fd.Tokens, fmt.Sprintf("f%d:%s", t.F, t.V))
 			}
 			docs = append(docs, fd)
@@ -618,12 +709,24 @@ func execCorpus(tmp string, idx int, corpus []doc, reqs []request, bulks int, mo
 		if err := fracbuild.Append(fm, docs); err != nil {
 			return fail("harness-error", "Append: "+err.Error())
 		}
-		// a search between bulks forces the active fraction to merge its queues piecewise
-		if mode != "sealed" && b+1 < nb && len(fracbuild.Fracs(fm)) == 1 {
-			if p, err := (fracbuild.Query{Text: "f0:a*", Mapping: mapping, To: math.MaxUint64, Limit: 3}).Params(); err == nil {
-				dp, release := fracbuild.Fracs(fm)[0].DataProvider(context.Background())
-				_, _ = dp.Search(p)
-				release()
+		lo = hi
+		// a search between bulks (answer checked like any other, on the documents ingested so far)
+		if b+1 < len(cuts) && hi > 0 && len(fracbuild.Fracs(fm)) == 1 {
+			if q := interRequest(inter, b, corpus[hi:cuts[b+1]]); q != nil {
+				a, serr, herr := ask(fracbuild.Fracs(fm)[0], *q)
+				switch {
+				case herr != nil:
+					return fail("harness-error", herr.Error())
+				case serr != nil:
+					res.viol = append(res.viol, casefile.Violation{Fingerprint: "search-error:" + errClass(serr), What: "Search fails: " + serr.Error(),
+						Input: map[string]any{"mode": "active", "cuts": cuts[:b+1], "inter": inter, "docs": corpus[:hi], "request": q}})
+				case len(corpus) <= 100:
+					res.extra = append(res.extra, borderCase{
+						coq:   fmt.Sprintf("CSearch\n   %s\n   [%s]", corpusCoq(corpus[:hi]), a.sq),
+						input: map[string]any{"mode": "active", "cuts": cuts[:b+1], "inter": inter, "docs": corpus[:hi], "requests": []request{*q}},
+						impl:  []any{a.ans}, nontr: len(a.ans.IDs) > 0,
+					})
+				}
 			}
 		}
 	}
@@ -653,27 +756,18 @@ func execCorpus(tmp string, idx int, corpus []doc, reqs []request, bulks int, mo
 	var sqs []string
 	var answers []any
 	for qi, q := range reqs {
-		p, err := (fracbuild.Query{Text: q.Text, Mapping: mapping, From: q.From, To: q.To, Limit: q.Limit, Reverse: q.Reverse, WithTotal: q.WT}).Params()
-		if err != nil {
-			return fail("harness-error", "parse: "+err.Error())
+		as, serr, herr := ask(f, q)
+		if herr != nil {
+			return fail("harness-error", herr.Error())
 		}
-		ast, err := astCoq(p.AST)
-		if err != nil {
-			return fail("harness-error", "ast: "+err.Error())
-		}
-		qpr, err := searchGuarded(f, p)
-		if err != nil {
-			res.viol = append(res.viol, casefile.Violation{Fingerprint: "search-error:" + errClass(err), What: "Search fails: " + err.Error(),
-				Input: map[string]any{"mode": mode, "bulks": sh.bulks, "docs": corpus, "request": q}})
+		if serr != nil {
+			res.viol = append(res.viol, casefile.Violation{Fingerprint: "search-error:" + errClass(serr), What: "Search fails: " + serr.Error(),
+				Input: map[string]any{"mode": mode, "cuts": cuts, "inter": inter, "docs": corpus, "request": q}})
 			continue
 		}
-		a := answer{IDs: make([][2]uint64, len(qpr.IDs)), Total: qpr.Total}
-		for i, x := range qpr.IDs {
-			a.IDs[i] = [2]uint64{uint64(x.ID.MID), uint64(x.ID.RID)}
-		}
+		a := as.ans
 		answers = append(answers, a)
-		sqs = append(sqs, fmt.Sprintf("SQ %s\n       %s\n       %d %d %s %d %s %s %d", q.E.coq(), ast, q.From, q.To,
-			casefile.Bool(q.Reverse), q.Limit, casefile.Bool(q.WT), idsCoq(a.IDs), a.Total))
+		sqs = append(sqs, as.sq)
 		if len(a.IDs) > 0 {
 			res.counts = append(res.counts, "answer:nonempty")
 			if q.E.has("not") {
@@ -684,6 +778,12 @@ func execCorpus(tmp string, idx int, corpus []doc, reqs []request, bulks int, mo
 			}
 		} else {
 			res.counts = append(res.counts, "answer:empty")
+		}
+		if q.Hist > 0 {
+			res.counts = append(res.counts, "request:histogram")
+		}
+		if q.WT {
+			res.counts = append(res.counts, "request:with-total")
 		}
 		if q.Reverse {
 			res.counts = append(res.counts, "order:asc")
@@ -701,7 +801,7 @@ func execCorpus(tmp string, idx int, corpus []doc, reqs []request, bulks int, mo
 			if kind != "" {
 				res.borders = append(res.borders, borderCase{
 					coq:   fmt.Sprintf("CBorders corpus_%d %d %d %d %d", idx, q.From, q.To, lo, hi),
-					input: map[string]any{"mode": mode, "docs": corpus, "from": q.From, "to": q.To},
+					input: map[string]any{"mode": mode, "cuts": cuts, "inter": inter, "docs": corpus, "from": q.From, "to": q.To},
 					impl:  map[string]any{"minLID": lo, "maxLID": hi, "len": n},
 					nontr: hi >= lo && int(hi-lo)+1 < len(corpus),
 				})
@@ -838,6 +938,8 @@ func main() {
 			}
 		}
 		sh.bulks = r.Range(1, 4)
+		sh.inter = r.Intn(3)
+		sh.repeat = r.Chance(1, 2)
 		switch r.Intn(5) {
 		case 0:
 			sh.midBase = 1 // smallest MID the ingest path accepts (DocProvider replaces MID 0 by the wall clock)
@@ -894,6 +996,9 @@ func main() {
 		for _, b := range res.borders[:nb] {
 			w.Add(b.coq, "borders-"+jobs[i].mode, b.nontr, b.input, b.impl)
 		}
+		for _, b := range res.extra {
+			w.Add(b.coq, "search-active-midingest", b.nontr, b.input, b.impl)
+		}
 	}
 	if err := w.Close(); err != nil {
 		panic(err)
@@ -928,7 +1033,8 @@ func doReplay(w *casefile.Writer, path string) {
 		Tree     *ntree     `json:"tree"`
 		Lists    [][]uint32 `json:"lists"`
 		Mode     string     `json:"mode"`
-		Bulks    int        `json:"bulks"`
+		Cuts     []int      `json:"cuts"`
+		Inter    int        `json:"inter"`
 		Docs     []doc      `json:"docs"`
 		Requests []request  `json:"requests"`
 		Request  *request   `json:"request"`
@@ -959,7 +1065,7 @@ func doReplay(w *casefile.Writer, path string) {
 		if in.Mode == "" {
 			in.Mode = "active"
 		}
-		res := execCorpus(tmp, 0, in.Docs, reqs, in.Bulks, in.Mode)
+		res := execCorpus(tmp, 0, in.Docs, reqs, in.Cuts, in.Inter, in.Mode)
 		for _, v := range res.viol {
 			w.Violate(v.Fingerprint, v.What, v.Input)
 		}
@@ -968,6 +1074,9 @@ func doReplay(w *casefile.Writer, path string) {
 		}
 		for _, bc := range res.borders {
 			w.Add(bc.coq, "borders-"+in.Mode, bc.nontr, bc.input, bc.impl)
+		}
+		for _, bc := range res.extra {
+			w.Add(bc.coq, "search-active-midingest", bc.nontr, bc.input, bc.impl)
 		}
 	default:
 		fmt.Fprintln(os.Stderr, "replay: unrecognised input")
